@@ -21,7 +21,7 @@ RULE = ("part A: keys of every type/size/curve (special short-coordinate scalars
         "hashlib) for SHA-256, and for SHA-384/512 through thumbprint_digest_method on a subclass and rfc7638.thumbprint; all "
         "representations of one key must agree. part B: rule-based state machine over one key and key sets (ensure_kid, KeySet(), "
         "as_dict with/without overriding params, caller edits of exported dicts, public export, PEM export, repeated thumbprint(), selecting another digest on the key's class): "
-        "an auto kid equals the thumbprint, an existing kid is never replaced, values are stable (part S: 2-3 keys made with ONE caller-owned parameters dict each get their own thumbprint as kid) and every later export carries the assigned kid. non-trivial: >= 2 representations "
+        "an auto kid equals the thumbprint, an existing kid is never replaced, values are stable (part S: 2-3 keys made with ONE caller-owned parameters dict each get their own thumbprint as kid; one caller-owned JWK document used for several imports gains no member) and every later export carries the assigned kid. non-trivial: >= 2 representations "
         "of one key / keys with short coordinates; distinct = (kty/crv, key class, representation set, digest).")
 ASSUMPTIONS = ["reference thumbprint = /verif/ref/keys.py:thumbprint (self-tested on RFC 7638 section 3.1)"]
 BUDGET_S = {"quick": 85, "thorough": 900}
